@@ -237,7 +237,7 @@ static long long execOp(World &w, const J &op, J &ev) {
             bool ok; J b1 = fileBytes(p, ok);
             ev.set("bytes", b1).set("exists", J(ok ? 1 : 0));
             // C14: saving is pure (object unchanged) and repeatable (a second save gives the same bytes)
-            { std::vector<J> d; jdiff(before, after, "", d, 3); jdiff(after, before, "", d, 6);
+            { std::vector<J> d; jdiffSections(before, after, d, 2); jdiffSections(after, before, d, 2);
               J pd = J::arr(); for (size_t i = 0; i < d.size(); ++i) pd.push(d[i]); ev.set("purity", pd); }
             { std::string p2 = p + ".again"; unlink(p2.c_str()); w.obj(o).write(p2); bool ok2; /* second save: to a path that does not exist yet */ J b2 = fileBytes(p2, ok2);
               size_t first = 0; while (first < b1.a.size() && first < b2.a.size() && b1.a[first].i == b2.a[first].i) ++first;
@@ -255,13 +255,23 @@ static long long execOp(World &w, const J &op, J &ev) {
             Parameter p(verif::uncodes(pj.at("n")), verif::uncodes(pj.at("d")));
             J souts = J::arr();
             const J &sets = pj.at("sets");
-            for (size_t i = 0; i < sets.a.size(); ++i) {
-                std::string so = "ok";
-                try { applySet(p, sets.a[i]); } catch (...) { so = classify(); }
-                souts.push(J(so));
+            if (op.has("donor")) {
+                // a byte-typed Parameter cannot be built with the setters: it is taken from an object loaded from the donor file
+                std::string dp = fullpath("donor.c3d");
+                putFile(dp, op.at("donor"));
+                c3d donor(dp);
+                p = donor.parameters().group("DONOR").parameter(0);
+                for (size_t i = 0; i < sets.a.size(); ++i) souts.push(J("ok"));
+                unlink(dp.c_str());
+            } else {
+                for (size_t i = 0; i < sets.a.size(); ++i) {
+                    std::string so = "ok";
+                    try { applySet(p, sets.a[i]); } catch (...) { so = classify(); }
+                    souts.push(J(so));
+                }
+                if (pj.geti("l", 0)) p.lock();
             }
             ev.set("sets", souts);
-            if (pj.geti("l", 0)) p.lock();
             w.obj(o).parameter(verif::uncodes(op.at("g")), p);
         }
         else if (name == "LockGroup") w.obj(o).lockGroup(verif::uncodes(op.at("g")));
@@ -439,7 +449,7 @@ static bool replayCase(const J &c, long long caseNo, long long &steps) {
     if (c.has("out") && out != c.at("out").s)
         diffs.push_back(J::obj().set("k", "out").set("path", "out").set("exp", c.at("out")).set("act", J(out)));
     if (c.has("post")) {
-        std::vector<J> d; jdiff(c.at("post"), post, "", d, 6);
+        std::vector<J> d; jdiffSections(c.at("post"), post, d, 6);
         for (size_t i = 0; i < d.size(); ++i) { d[i].set("k", "post"); diffs.push_back(d[i]); }
     }
     const bool isGet = op.at("op").s == "Get";
@@ -483,10 +493,10 @@ static bool replayCase(const J &c, long long caseNo, long long &steps) {
     }
     // C10, independent of the specification: a call that threw must leave the object as it was
     if (out != "ok" && op.at("op").s != "Load") {
-        std::vector<J> d; jdiff(pre, post, "", d, 4);
-        std::vector<J> d2; jdiff(post, pre, "", d2, 4);
+        std::vector<J> d; jdiffSections(pre, post, d, 3);
+        std::vector<J> d2; jdiffSections(post, pre, d2, 3);
         for (size_t i = 0; i < d2.size(); ++i) d.push_back(d2[i]);
-        for (size_t i = 0; i < d.size() && i < 4; ++i) { d[i].set("k", "unchanged"); diffs.push_back(d[i]); }
+        for (size_t i = 0; i < d.size() && i < 12; ++i) { d[i].set("k", "unchanged"); diffs.push_back(d[i]); }
     }
     if (diffs.empty()) return true;
     J r = J::obj().set("id", c.geti("id", caseNo)).set("fail", J(1)).set("actout", J(out)).set("len", J(path.a.size() + 1));
